@@ -282,26 +282,34 @@ def random_walks(via, n, rnd, maxlen):
 # ----------------------------------------------------------------------------------------------
 # running the harness and judging
 
-def run_binding(prop, via, binp, walks, tier, label, par, grace):
+def run_binding(prop, via, binp, walks, tier, label, par, grace, reg_ms=150):
     wd = vlib.workdir(prop, "h_%s_%s" % (label, "serve" if via else "direct"))
     planp, outp = os.path.join(wd, "plan.json"), os.path.join(wd, "obs.ndjson")
     with open(planp, "w") as f:
-        json.dump({"walks": walks, "par": par, "grace_ms": grace, "max_park": 8}, f)
+        json.dump({"walks": walks, "par": par, "grace_ms": grace, "max_park": 8, "reg_ms": reg_ms}, f)
     rc, out, err, summ = vlib.run_harness(binp, HARNESS[via][3], {"VERIF_PLAN": planp, "VERIF_OUT": outp, "VERIF_TIER": tier}, timeout=2400)
     if rc != 0 or not summ:
         raise NoVerdict("wait harness (%s) failed (rc=%d):\n%s\n%s" % ("serve" if via else "direct", rc, out[-3000:], err[-3000:]))
     return vlib.split_traces(vlib.read_ndjson(outp)), summ
 
 
-def judge(prop, verdict, traces, plans, label, drift):
-    """TLC validates every recorded step; rejected steps of TC20 are violations observed on the real code."""
+def judge(prop, traces, label, drift):
+    """TLC validates every recorded step; returns the steps rejected by TC20 as [(trace index, line)] and statistics."""
     if not traces:
-        return {"events": 0, "wall": 0.0}
+        return [], {"events": 0, "wall": 0.0}
     twd = vlib.workdir(prop, "tv_" + label)
     cfg = open(os.path.join(vlib.SPEC, "TraceWait.cfg")).read()
     rejected, st = vlib.validate_traces(prop, twd, "TraceWait.tla", cfg, ["TC20", "Strict"], traces, strip=("exp", "info", "i"))
+    for (ti, li) in rejected["Strict"]:
+        if (ti, li) not in rejected["TC20"]:
+            drift.append({"trace": traces[ti][0]["tid"], "step": traces[ti][li]["e"], "why": "a parked waiter is not on the table entry of its own code"})
+    return rejected["TC20"], st
+
+
+def file_violations(prop, verdict, traces, rejected, plans, label):
+    """Rejected steps of TC20 are violations observed on the real code."""
     bad = set()
-    for (ti, li) in rejected["TC20"]:
+    for (ti, li) in rejected:
         rec = traces[ti][li]
         e = rec["e"]
         via = rec["post"]["via"]
@@ -314,10 +322,6 @@ def judge(prop, verdict, traces, plans, label, drift):
         bad.add(ti)
         verdict.violation(k, "step %d of trace %s is not allowed by C20_Step: before %s, step %s, after %s"
                           % (li - 1, rec["tid"], json.dumps(rec["pre"]), json.dumps(e), json.dumps(rec["post"])), rp)
-    for (ti, li) in rejected["Strict"]:
-        if (ti, li) not in rejected["TC20"]:
-            drift.append({"trace": traces[ti][0]["tid"], "step": traces[ti][li]["e"], "why": "a parked waiter is not on the table entry of its own code"})
-    return st
 
 
 def compare_expected(traces, expect, drift):
@@ -350,8 +354,8 @@ def shape(rec):
             tuple(sorted(rel(c) for c in e["cs"])), len(e["rel"]) > 0)
 
 
-def execute(prop, tier, bins, plans_by_via, expect, verdict, drift, label, par, grace, stats, samples):
-    jobs = [("h%d" % int(v), (lambda v=v: run_binding(prop, v, bins[v], plans_by_via[v], tier, label, par, grace))) for v in (False, True) if plans_by_via.get(v)]
+def execute(prop, tier, bins, plans_by_via, expect, verdict, drift, label, par, grace, stats, samples, reg_ms=150, confirm=True):
+    jobs = [("h%d" % int(v), (lambda v=v: run_binding(prop, v, bins[v], plans_by_via[v], tier, label, par, grace, reg_ms))) for v in (False, True) if plans_by_via.get(v)]
     res = run_parallel(jobs, width=2)
     traces, plans = [], {}
     for v in (False, True):
@@ -364,15 +368,46 @@ def execute(prop, tier, bins, plans_by_via, expect, verdict, drift, label, par, 
         for k in ("walks", "steps", "noverdict", "slow", "panics", "skipped", "leaked"):
             stats[k] += summ.get(k, 0)
         stats["max_parked"] = max(stats["max_parked"], summ.get("max_parked", 0))
+        stats["observer"]["serve" if v else "direct"] = summ.get("observer", "?")
         for k, n in (summ.get("classes") or {}).items():
             stats["classes"][k] = stats["classes"].get(k, 0) + n
         if summ.get("nvtext") and not stats.get("nvtext"):
             stats["nvtext"] = summ["nvtext"]
-    st = judge(prop, verdict, traces, plans, label, drift)
+    rejected, st = judge(prop, traces, label, drift)
     stats["events"] += st["events"]
     stats["tv_wall"] += st["wall"]
     stats["traces"] += len(traces)
     stats["compared"] += compare_expected(traces, expect, drift)
+    # Steps observed with the notify lists are facts.  Steps observed by timing alone (a server without a table of
+    # condition variables) can be wrong when the machine stalls ("not returned yet" taken for "parked", a slow return
+    # taken for "not released"): a rejected walk is executed again with much longer observation times and only a
+    # rejection that shows again is reported.
+    firm = [(ti, li) for (ti, li) in rejected if stats["observer"].get("serve" if traces[ti][0]["post"]["via"] else "direct") != "timing"]
+    soft = [(ti, li) for (ti, li) in rejected if (ti, li) not in firm]
+    file_violations(prop, verdict, traces, firm, plans, label)
+    if soft and confirm:
+        again = {False: [], True: []}
+        seen = set()
+        for (ti, li) in soft:
+            via, tid = traces[ti][0]["post"]["via"], traces[ti][0]["tid"]
+            if (via, tid) not in seen and len(seen) < 60:
+                seen.add((via, tid))
+                again[via].append(plans[(via, tid)])
+        stats["reexecuted_timing_walks"] += len(seen)
+        log("[confirm] %d walks rejected under the timing observer are executed again with reg_ms=%d grace=%d" % (len(seen), 6 * reg_ms, 4 * grace))
+        jobs = [("h%d" % int(v), (lambda v=v: run_binding(prop, v, bins[v], again[v], tier, label + "_confirm", 16, 4 * grace, 6 * reg_ms))) for v in (False, True) if again[v]]
+        res2 = run_parallel(jobs, width=2)
+        t2 = []
+        for v in (False, True):
+            if ("h%d" % int(v)) in res2:
+                t2 += res2["h%d" % int(v)][0]
+                stats["noverdict"] += res2["h%d" % int(v)][1].get("noverdict", 0)
+        rej2, st2 = judge(prop, t2, label + "_confirm", [])
+        stats["events"] += st2["events"]
+        file_violations(prop, verdict, t2, rej2, plans, label + "_confirm")
+        stats["unconfirmed_timing_rejections"] += len(seen) - len({(t2[ti][0]["post"]["via"], t2[ti][0]["tid"]) for (ti, li) in rej2})
+    elif soft:
+        file_violations(prop, verdict, traces, soft, plans, label)
     for t in traces:
         for r in t[1:]:
             stats["shapes"].add(shape(r))
@@ -386,7 +421,8 @@ def execute(prop, tier, bins, plans_by_via, expect, verdict, drift, label, par, 
 
 def new_stats():
     return {"walks": 0, "steps": 0, "noverdict": 0, "slow": 0, "panics": 0, "skipped": 0, "leaked": 0, "max_parked": 0, "events": 0,
-            "tv_wall": 0.0, "traces": 0, "compared": 0, "shapes": set(), "releases": 0, "classes": {}}
+            "tv_wall": 0.0, "traces": 0, "compared": 0, "shapes": set(), "releases": 0, "classes": {}, "observer": {},
+            "reexecuted_timing_walks": 0, "unconfirmed_timing_rejections": 0}
 
 
 def replay(prop, path):
@@ -397,7 +433,7 @@ def replay(prop, path):
         raise NoVerdict("replay file has no walk")
     bins = {via: build(via, prop)}
     verdict, drift, stats, samples = vlib.Verdict(prop), [], new_stats(), []
-    execute(prop, "quick", bins, {via: [walk]}, {}, verdict, drift, "replay", 1, 80, stats, samples)
+    execute(prop, "quick", bins, {via: [walk]}, {}, verdict, drift, "replay", 1, 120, stats, samples, reg_ms=900, confirm=False)
     if stats["noverdict"]:
         raise NoVerdict("replay gave no observation: %s" % stats.get("nvtext"))
     for s in samples[:1]:
@@ -495,12 +531,19 @@ def run(prop, tier):
                    "walk is judged by TLC with C20_Step (TraceWait.tla); distinct_nontrivial = distinct (binding, step kind, multiset of "
                    "parked waiters per code, relation of the step's codes to the parked ones, somebody returned) shapes exercised on the real code",
            "request_classes_through_ServeAgent": dict(sorted(stats["classes"].items())),
+           "observer": stats["observer"],
+           "timing_observer_walks_executed_again": stats["reexecuted_timing_walks"],
+           "timing_observer_rejections_not_confirmed": stats["unconfirmed_timing_rejections"],
            "max_concurrently_parked": stats["max_parked"], "slow_returns": stats["slow"], "panics_observed": stats["panics"],
            "steps_skipped_by_the_8_waiter_cap": stats["skipped"], "goroutines_left_parked": stats["leaked"],
            "walks_without_observation": stats["noverdict"], "spec_drift": len(drift), "zero_coverage_actions": vacuous,
            "model_cfgs": [c for c, _ in MC[tier]], "trace_validation_wall_s": round(stats["tv_wall"], 1)}
     vlib.write_evidence(prop, tier, "model_checking", cov,
-                        ["the underlying agent is x/crypto's keyring behind the harness frame proxy",
+                        ["observer=%s" % ("timing (the server has no table of condition variables the harness can read: 'parked' = the Wait call has "
+                                          "not returned 150 ms after it was issued, 'still waiting' = not returned 60 ms after the request was answered; a rejected "
+                                          "walk is executed again with 900 ms / 240 ms before it is reported)" if "timing" in stats["observer"].values()
+                                          else "notify-lists"),
+                         "the underlying agent is x/crypto's keyring behind the harness frame proxy",
                          "a registration counts as observed when the Wait call has not returned and the notify lists of the table hold one goroutine more "
                          "(two identical consecutive readings); 'still waiting' = not returned and still on a notify list after the request was answered "
                          "plus a grace period of 60 ms; 'released' = returned (waited for up to 30 s once the notify list shows the wake-up)",
